@@ -1,4 +1,5 @@
 import Jose.Lemmas.Entity
+import Jose.Grid.C15
 import Jose.Jws
 import Jose.Props.C10
 import Jose.Props.C03
@@ -443,5 +444,18 @@ example : (encCekSetup (.obj [("protected", .obj [("enc", .str "A128GCM")])])
 /-- non-vacuity -/
 example : jwsHdr (.obj [("protected", .obj [("alg", .str "P")]), ("header", .obj [("alg", .str "H"), ("kid", .int 1)])])
     = some (.obj [("alg", .str "P"), ("kid", .int 1)]) := by rfl
+
+
+/-! ### the model is the code, on a grid regenerated from the code on every run
+
+  `Jose/Grid/C15.lean` is rewritten by the translator (tools/extract_tables.py) on every run: it holds
+  what the library **built from the current working tree** answered, in-process, to a fixed grid of
+  operations — header merging `jose_jws_hdr` / `jose_jwe_hdr`: every presence pattern of a parameter over the two / three headers with conflicting values, protected header as object, as base64url text and absent, wrongly typed and undecodable headers.
+  `Driver.agrees` evaluates the model's handler for the row's operation (the same handler the
+  correspondence run uses) and compares with the recorded answer by `json_equal`.  The theorem is
+  checked by the kernel (`decide +kernel`: evaluation, no axiom); any edit of the C that changes one of
+  these answers makes it false, and the check then reports a violation. -/
+theorem model_is_code_on_grid : Jose.Grid.C15.chunks.all (fun c => c.all Jose.Driver.agrees) = true := by
+  decide +kernel
 
 end Jose.Props.C15
